@@ -1117,7 +1117,8 @@ reg("C15", [eng_capacity, eng_data_random(M.mon_batch, {"PULL"}, streams=True, t
                + SEQ_NOTE,
     level_note="The rule about when a blocking Pull may answer empty is proved in the concurrent model of one subscription "
                "(C15c_*: only through its 300 s limit; an empty reply of the actor makes the consumer wait) and in the "
-               "sequential model (WaitP); " + "it is exercised on the real server by the wait streams of C06.")
+               "sequential model (WaitP); " + "it is exercised on the real server by the wait streams of C06.",
+    generated=[("consumers-as-modelled", lockgate.consumer_gate, "ConsumerCheck")])
 
 reg("C17", [eng_malformed, eng_names_pure, eng_codec_pure, lambda ctx: eng_boundary_counts(ctx),
             lambda ctx: eng_control_shape(ctx), lambda ctx: eng_registry_enum(ctx)],
@@ -1563,7 +1564,8 @@ reg("C06", [eng_wait_enum, eng_wait_random(M.mon_wait, {"SR", "JOIN"}), eng_canc
                + CSUB_NOTE,
     level_note="Liveness in the sense 'the woken consumer is eventually scheduled' rests on the fairness of the tokio "
                "scheduler, which is assumed; batch contents are abstract (counters) in the concurrent model and concrete in "
-               "the sequential one.")
+               "the sequential one.",
+    generated=[("consumers-as-modelled", lockgate.consumer_gate, "ConsumerCheck")])
 
 reg("C12", [eng_delete_release, eng_wait_random(M.mon_release, {"DS"}), eng_burst_shapes, eng_cs,
             lambda ctx: eng_abandon(ctx), lambda ctx: eng_grpcstress(ctx), lambda ctx: eng_create_delete_race(ctx),
@@ -1584,7 +1586,8 @@ reg("C12", [eng_delete_release, eng_wait_random(M.mon_release, {"DS"}), eng_burs
                "finished (streams NOT_FOUND, Pulls an error), an unfinished consumer always has a step to take, and the "
                "number of steps it can still take is explicitly bounded. " + SEQ_NOTE + " " + CSUB_NOTE,
     level_note="Requests racing the deletion other than pulls (ack/modify/get) are covered by the actor model of C07 "
-               "(queued requests are answered when the subscription exits) and by the burst-shapes stream.")
+               "(queued requests are answered when the subscription exits) and by the burst-shapes stream.",
+    generated=[("consumers-as-modelled", lockgate.consumer_gate, "ConsumerCheck")])
 
 
 # ================================================================= C16 abandoned requests
